@@ -179,6 +179,7 @@ def check_property(prop: str, tier: str, seed: int, only: str | None) -> int:
             "solver_s": ded.get("solver_s", 0.0),
             "vacuity": ded.get("vacuity", {}),
             "known_class_obligations": ded.get("known_class_obligations", []),
+            "discharged_obligations_cross_checked_with_cvc5": ded.get("cross_checked", {}),
             "obligation_samples": ded.get("samples", []),
         })
     if bnd:
